@@ -103,12 +103,12 @@ static std::vector<std::vector<sz>> const g_calls_lists = {{3}, {2, 4}, {3, 1, 4
 template <typename T>
 static void vegas_case(report& r, std::string const& id, sz iters, int gridkind, T alpha, int mode)
 {
-    sz const dims = 2;
+    sz const dims = gridkind == 2 ? 3 : 2;      // the 4-bin default grid runs in three dimensions
     auto const& calls = g_calls_lists[iters - 1];
     using E = vf::script_engine;
     vf::script_engine::table().clear();
     vf::script_engine::salt() = 1900;
-    hep::vegas_pdf<T> user(dims, 3);
+    hep::vegas_pdf<T> user(2, 3);
     user.set_bin_left(0, 1, T(0.2L)); user.set_bin_left(0, 2, T(0.3L)); user.set_bin_left(1, 1, T(0.5));
     sz const bins = gridkind <= 3 ? sz(2 + gridkind) : 3;
     auto fresh = [&]() {
